@@ -1588,6 +1588,8 @@ def c16_programs(tier, sd):
                         ["randomize", ["top"]], ["randomize_with", ["top"], [E(["dyn", "dd"])]]]})
     # failing calls on objects whose constraints reach fields only through dynamic blocks of list elements (solver handles!)
     out += [dict(p, tag="fault_" + p["tag"]) for p in c06_programs(tier, sd) if p["tag"] == "inline_fail"]
+    # per-call expansions inside blocks that are switched off: nothing may be left in the model after a call that ended normally
+    out += [dict(p, tag="idle_" + p["tag"]) for p in c07_programs(tier, sd) if p["tag"] in ("cmode_foreach", "cmode_order")]
     # seeded mixtures
     faults = [["new_fault", ["x", "obj", "Bad%d" % k]] for k in range(10)] + \
              [["randomize_with", ["p"], unsat], ["randomize_with", ["p"], [E(["<", a, lit(6)]), ["raise", "s"]]],
